@@ -684,7 +684,8 @@ func (m *Models) windowStep(bi *BlockInfo) {
 		}
 		st := ws[a]
 		if st == nil {
-			st = &windowState{}
+			// first sight (a genesis validator): the window starts where the genesis state says
+			st = &windowState{offset: pv.SigningInfo.Offset, missed: pv.SigningInfo.Missed}
 			ws[a] = st
 		}
 		st.tripped = false
@@ -693,10 +694,9 @@ func (m *Models) windowStep(bi *BlockInfo) {
 			if cv.SigningInfo.Missed != pv.SigningInfo.Missed && cv.Status == pv.Status {
 				w.violate("C14", "inactive-counted", "inactive-counted", "height %d: non-active validator %x had its missed counter changed %d -> %d", b.Height, []byte(a)[:4], pv.SigningInfo.Missed, cv.SigningInfo.Missed)
 			}
-			st.offset, st.missed = cv.SigningInfo.Offset, cv.SigningInfo.Missed
 			continue
 		}
-		st.offset, st.missed = pv.SigningInfo.Offset, pv.SigningInfo.Missed
+		// the model keeps its own counters from activation on; it does not read the chain's
 		if v.BlockIdFlag == 1 { // absent
 			st.missed++
 		}
@@ -712,7 +712,21 @@ func (m *Models) windowStep(bi *BlockInfo) {
 			w.violate("C14", "offence-not-punished", "not-jailed", "height %d: validator %x reached %d misses (max %d) and is still active", b.Height, []byte(a)[:4], params.MaxMissedPerWindow, params.MaxMissedPerWindow)
 		}
 	}
-	// validators promoted to active start with a clean window (checked loosely: counters reset)
+	// a validator promoted to active at the end of this block starts a clean window
+	for a, cv := range m.Cur.Vals {
+		if cv.Status != lockingtypes.Active {
+			continue
+		}
+		var pv *lockingtypes.Validator
+		if m.Prev != nil {
+			pv = m.Prev.Vals[a]
+		}
+		if pv == nil || pv.Status != lockingtypes.Active {
+			ws[a] = &windowState{}
+		} else if st := ws[a]; st != nil && (st.offset != cv.SigningInfo.Offset || st.missed != cv.SigningInfo.Missed) {
+			w.probe("signing-counters-differ-from-model")
+		}
+	}
 	_ = sort.Strings
 }
 
